@@ -32,6 +32,8 @@ def mod_fns(L, prefix):
 
 
 def run(ck):
+    if getattr(ck, 'depth', 0) >= 2:
+        return      # a shared run of a shared run: nothing of it is selected, and mutual sharing must end somewhere
     F = ck.facts
     L = F.lib
     FAC = core.load_table('cxx_facilities.json')
@@ -386,6 +388,9 @@ def run(ck):
         def __init__(self, outer):
             self.o = outer
             self.facts = outer.facts
+            self.depth = getattr(outer, 'depth', 0) + 1
+            self.tier = getattr(outer, 'tier', 'quick')
+            self.extra = {}
             self.explanation = ''
 
         def rule(self, *a):
